@@ -73,6 +73,7 @@ def judge(c, d, out, rc, err):
     runs = R.parse_runs(out)
     T = len(c["pos"])
     it0 = c.get("it0", 0)
+    TOLC = c.get("tol", R.TOL)     # projected ABF: results of an iterative solver stopped at its own tolerance
 
     def add(kind, sig, what, K=None, fmt=None, **kw):
         f = {"kind": kind, "sig": sig, "what": what, "K": K, "fmt": fmt}
@@ -109,7 +110,7 @@ def judge(c, d, out, rc, err):
                 continue
             fA, fB = pre + "A_%s.colvars.state" % lab, pre + "B_%s.colvars.state" % lab
             # A = U
-            dd = first_diff(U["steps"], A["steps"], fU, fA)
+            dd = first_diff(U["steps"], A["steps"], fU, fA, tol=TOLC)
             if dd:
                 t, (obs, x, y) = dd
                 add("save-side-effect", "save-changes-run:%s:%s" % (fam, obs_class(obs)),
@@ -118,7 +119,7 @@ def judge(c, d, out, rc, err):
                     K, fmt, t=t, obs=obs)
             # B = A
             dd = first_diff(A["steps"], B["steps"], fA, fB, off=K, resumed=True, tf_lagged=c.get("tf_lagged", False),
-                            sleep_factor=c.get("sleep_factor", 0))
+                            sleep_factor=c.get("sleep_factor", 0), tol=TOLC)
             if dd:
                 t, (obs, x, y) = dd
                 when = "final" if t is None else ("at-restart-step" if t == K else "after")
@@ -180,7 +181,7 @@ def judge(c, d, out, rc, err):
                 "restart file written by the module at step %d (colvarsRestartFrequency %d): %s" % (it0 + K, R.auto_freq(c, K), ev[:1] or "no file"), K, "auto")
             continue
         dd = first_diff(U["steps"], QB["steps"], fU, pre + "QB_%d.colvars.state" % K, off=K, resumed=True,
-                        tf_lagged=c.get("tf_lagged", False), sleep_factor=c.get("sleep_factor", 0))
+                        tf_lagged=c.get("tf_lagged", False), sleep_factor=c.get("sleep_factor", 0), tol=TOLC)
         if dd:
             t, (obs, x, y) = dd
             when = "final" if t is None else ("at-restart-step" if t == K else "after")
@@ -198,7 +199,7 @@ def judge(c, d, out, rc, err):
             add("load-error", "chain:%s:not-loaded" % fam, "stop after steps %d and %d (%s), resumed twice: %s" % (it0 + K1, it0 + K2, fmt, evs[:1]), K2, fmt)
             continue
         dd = first_diff(U["steps"], C3["steps"], fU, pre + "C3_%s.colvars.state" % lab, off=K2, resumed=True,
-                        tf_lagged=c.get("tf_lagged", False), sleep_factor=c.get("sleep_factor", 0))
+                        tf_lagged=c.get("tf_lagged", False), sleep_factor=c.get("sleep_factor", 0), tol=TOLC)
         if dd:
             t, (obs, x, y) = dd
             when = "final" if t is None else ("at-restart-step" if t == K2 else "after")
@@ -217,7 +218,7 @@ def judge(c, d, out, rc, err):
                 "a configuration with a bias on an undefined variable is rejected, then the state of step %d is loaded: events %s"
                 % (it0 + K, ev[:3]), K, "text")
             continue
-        dd = first_diff(B["steps"], Er["steps"], pre + "B_%d_text.colvars.state" % K, pre + "E_%d.colvars.state" % K, off=0)
+        dd = first_diff(B["steps"], Er["steps"], pre + "B_%d_text.colvars.state" % K, pre + "E_%d.colvars.state" % K, off=0, tol=TOLC)
         if dd:
             t, (obs, x, y) = dd
             add("resume", "rejected-config:%s:%s" % (fam, obs_class(obs)),
@@ -253,10 +254,10 @@ def judge(c, d, out, rc, err):
         steps = Rr["steps"][:K + 1] + Rr["steps"][K + 2:]
         rep = Rr["steps"][K + 1]
         found = []
-        dd = first_diff(U["steps"], [rep], None, None, off=K, resumed=True, tf_lagged=c.get("tf_lagged", False), states=False)
+        dd = first_diff(U["steps"], [rep], None, None, off=K, resumed=True, tf_lagged=c.get("tf_lagged", False), states=False, tol=TOLC)
         if dd:
             found.append(("at-repeated-step", dd))
-        dd = first_diff(U["steps"], steps, fU, pre + "R_%d.colvars.state" % K)
+        dd = first_diff(U["steps"], steps, fU, pre + "R_%d.colvars.state" % K, tol=TOLC)
         if dd:
             found.append(("final" if dd[0] is None else "after", dd))
         for when, (t, (obs, x, y)) in found:
@@ -269,7 +270,7 @@ def judge(c, d, out, rc, err):
         for K in c["Ks"]:
             ft = pre + "B_%d_text.colvars.state" % K
             fb = pre + "B_%d_binary.colvars.state" % K
-            ds = R.diff_states(ft, fb)
+            ds = R.diff_states(ft, fb, TOLC)
             if ds:
                 add("format", "format:%s:state:%s" % (fam, ds[0]),
                     "stop after step %d: the run resumed from the text state ends with `%s` %r, the one resumed from the "
@@ -288,6 +289,19 @@ def run_cases(exe, cases, d, keep=False, callback=None):
         rc, out, err = run_scenario(exe, lines, cwd=d)
         c["_nsteps"] = sum(1 for l in out if l.startswith("STEP"))
         F = judge(c, d, out, rc, err)
+        # which fields of the state differ, at some stop step, from what the configuration alone gives
+        try:
+            pre_ = os.path.join(d, "c%s_" % c["id"])
+            z = R.state_fields(pre_ + "Z.colvars.state")
+            ch = set()
+            if z is not None and "text" in c["fmts"]:
+                for K in c["Ks"]:
+                    a = R.state_fields(pre_ + "a_%d_text.colvars.state" % K)
+                    if a:
+                        ch.update(k for k in a if a.get(k) != z.get(k))
+            c["_state_changed"] = sorted(ch)
+        except Exception:
+            c["_state_changed"] = []
         extra = None
         if callback is not None:
             try:
